@@ -334,7 +334,7 @@ def run(ctx: Context):
             return False
         rets = cfg.find(is_return)
         for n in rets:
-            v = n.ast.value
+            v = fnorm.resolve(n, n.ast.value)
             ok = isinstance(v, ast.Tuple) and len(v.elts) == 3 and fnorm.norm(n, v.elts[1]) == cps[0] + "[0]"
             r.require(ok, ck, ck.loc(n.ast), "returns %s, not the segment that was hashed" % src(ck, v))
             if ok:
